@@ -73,6 +73,7 @@ func c06(r *core.Run) {
 	r.Rule("R9", "the matcher does not give up early: every `false` the recursive matcher returns is produced on the edge where the full-wildcard child was found absent - after the literal and the placeholder child were tried; a `return false` before that (for instance at a handler-less literal node that only exists as part of a longer pattern) hides the placeholder and wildcard patterns that match the name", 1)
 	r.Rule("R10", "registration accepts the documented token forms: analysed under the assumption that the current pattern token is exactly \"*\" (the anonymous placeholder of the Handle documentation, accepted by Pattern.IsValid) and, separately, a one-letter literal, the trie insertion reaches no panic (branches on the token's length and first byte are pruned by the assumption)", 2)
 	r.Rule("R11", "traversals are mount-aware: every function that descends the trie through literal, placeholder and wildcard children while carrying a position parameter tests the node's mounted flag and rebinds its mount index there, passing the rebound value to its recursive calls (the matcher and the registration-time traversal alike); placeholder positions are stored relative to the mux they were added to", 2)
+	r.Rule("R12", "only nodes with a handler are accepted: every exact-match accept site of the matcher lies behind the non-nil test of the accepted node's handler (the full-wildcard site excepted: such a node is only created for a registration)", 1)
 	r.Rule("R8", "Parallel means the empty group (shared with C01.F2): registration parses the group template from Handler.Group only on the !Parallel edge, so a Parallel handler is stored with the empty group whatever its Group option says (lookup then reports an empty group for it)", 1)
 	c01ParallelGroup(r, "R8")
 
@@ -82,10 +83,13 @@ func c06(r *core.Run) {
 		return
 	}
 	c06PureLookup(r, "R6")
+	r.Rule("R13", "the name is tokenised at every separator (shared with C17.G9): the lookup never splits with Fields / FieldsFunc, which drop empty tokens - a name with an empty token would match a pattern it does not match token by token, and a name of separators only would reach the matcher with no token at all (index out of range on the listener goroutine)", 1)
+	c17ExactTokens(r, "R13", []string{""}, "mux")
 	c06NoEarlyFailure(r, "R9", ro)
 	c06RegistrationAccepts(r, ro)
 	c06PrefixBoundary(r, "R7")
 	c06MountAware(r, "R11", ro)
+	c06AcceptHasHandler(r, "R12", root, ro)
 	c06GroupTags(r, root, ro)
 	// ---- R1 --------------------------------------------------------------
 	c06Specificity(r, "R1", ro)
@@ -498,6 +502,17 @@ func c06Units(r *core.Run, rule string, root []*ssa.Function, ro *muxRoles, grou
 			st := ac.Instr.(*ssa.Store)
 			bo, ok := st.Val.(*ssa.BinOp)
 			good := ok && bo.Op == token.SUB && isMountIndex(bo.Y)
+			// a per-token-kind helper that is handed the relative index: judged at its call sites
+			if prm, isPrm := st.Val.(*ssa.Parameter); isPrm && !good && p.IsPrivateHelper(ac.Fn) {
+				vs := paramArgs(p, prm, 0)
+				good = len(vs) > 0
+				for _, v := range vs {
+					b2, isB := v.(*ssa.BinOp)
+					if !isB || b2.Op != token.SUB || !isMountIndex(b2.Y) {
+						good = false
+					}
+				}
+			}
 			if c, ok := st.Val.(*ssa.Const); ok && c.Value != nil && c.Value.ExactString() == "0" {
 				continue // zero value in a literal (string part of a group)
 			}
@@ -536,6 +551,45 @@ func c06Registration(r *core.Run, root []*ssa.Function, ro *muxRoles) {
 			case ro.setParams:
 				setParams = c
 			}
+		}
+	}
+	// only named placeholders become path parameters: in the registration walk every extension of
+	// the placeholder list happens on the edge where the token's first byte was compared equal to
+	// the placeholder mark ('$'); the anonymous '*' shares the node but has no name to report
+	if ro.fetch != nil {
+		n := 0
+		for _, f2 := range p.Helpers(ro.fetch) {
+			for _, c := range core.Calls(f2) {
+				call, isCall := c.(*ssa.Call)
+				if !isCall || core.CalleeName(call) != "builtin:append" {
+					continue
+				}
+				sl, isSl := call.Type().Underlying().(*types.Slice)
+				if !isSl || core.TypeName(sl.Elem()) != "pathParam" {
+					continue
+				}
+				n++
+				named := false
+				for _, ed := range ctxEdges(p, c, ro.fetch, 0) {
+					for _, ft := range edgeFacts(ed) {
+						bo, isB := ft.V.(*ssa.BinOp)
+						if !isB || (bo.Op != token.EQL && bo.Op != token.NEQ) {
+							continue
+						}
+						k, isC := core.ConstInt(bo.Y)
+						if !isC || k != '$' {
+							continue
+						}
+						if (bo.Op == token.EQL) == ft.True {
+							named = true
+						}
+					}
+				}
+				r.Check(named, "R3", core.FuncName(f2), "path-param-recorded-only-for-a-named-placeholder", p.InstrPos(c), "the placeholder list grows only where the token starts with the placeholder mark", "a path parameter is recorded for a token that was not tested to start with the placeholder mark '$' (e.g. the anonymous '*'): lookups then report a parameter with an empty name holding that token")
+			}
+		}
+		if n == 0 {
+			r.Bad("R3", core.FuncName(ro.fetch), "path-param-recorded-only-for-a-named-placeholder", p.Pos(ro.fetch.Pos()), "the registration walk never extends a placeholder list (rule went vacuous)")
 		}
 	}
 	guards := guardMap(add)
@@ -736,9 +790,21 @@ func resolveMuxRolesFor(r *core.Run, roleRule string) *muxRoles {
 		}
 		return callsStatic(fn, func(c *ssa.Function) bool { return c == fn })
 	})
-	ro.fetch = one("fetch", func(fn *ssa.Function) bool {
+	isFetchLike := func(fn *ssa.Function) bool {
 		res := fn.Signature.Results()
 		return fn.Signature.Recv() != nil && core.TypeName(fn.Signature.Recv().Type()) == "Mux" && res.Len() >= 2 && core.TypeName(res.At(0).Type()) == "node"
+	}
+	// (per-token-kind helpers of the walk may have the same shape: the walk is the outermost one)
+	ro.fetch = one("fetch", func(fn *ssa.Function) bool {
+		if !isFetchLike(fn) {
+			return false
+		}
+		for _, c := range p.CallersOf(fn) {
+			if isFetchLike(core.Outermost(c.Parent())) && core.Outermost(c.Parent()) != fn {
+				return false
+			}
+		}
+		return true
 	})
 	ro.setParams = one("setAndValidateParams", func(fn *ssa.Function) bool {
 		return fn.Signature.Recv() == nil && fn.Signature.Params().Len() == 2 && hasParamType(fn, "node") && fn.Signature.Results().Len() == 0 && strings.Contains(fn.Signature.Params().At(1).Type().String(), "pathParam")
@@ -786,20 +852,34 @@ func resolveMuxRolesFor(r *core.Run, roleRule string) *muxRoles {
 			}
 		}
 		wild := ""
-		for _, b := range ro.fetch.Blocks {
-			for _, in := range b.Instrs {
-				stI, isSt := in.(*ssa.Store)
-				if !isSt {
-					continue
+		isCand := func(n string) bool {
+			for _, c := range cands {
+				if c == n {
+					return true
 				}
-				g, isF := core.FieldOf(stI.Addr)
-				if !isF || g.Struct != "node" {
-					continue
-				}
-				for _, ed := range dominatingEdges(stI) {
-					if bo, isB := ed.If.Cond.(*ssa.BinOp); isB && ed.Succ == 0 {
-						if k, isC := core.ConstInt(bo.Y); isC && k == '>' {
-							wild = g.Name
+			}
+			return false
+		}
+		for _, f2 := range p.Helpers(ro.fetch) { // the walk and its per-token-kind helpers
+			for _, b := range f2.Blocks {
+				for _, in := range b.Instrs {
+					stI, isSt := in.(*ssa.Store)
+					if !isSt {
+						continue
+					}
+					g, isF := core.FieldOf(stI.Addr)
+					if !isF || g.Struct != "node" || !isCand(g.Name) {
+						continue
+					}
+					for _, ed := range ctxEdges(p, stI, ro.fetch, 0) {
+						for _, ft := range edgeFacts(ed) {
+							bo, isB := ft.V.(*ssa.BinOp)
+							if !isB || (bo.Op != token.EQL && bo.Op != token.NEQ) {
+								continue
+							}
+							if k, isC := core.ConstInt(bo.Y); isC && k == '>' && (bo.Op == token.EQL) == ft.True {
+								wild = g.Name
+							}
 						}
 					}
 				}
@@ -1046,53 +1126,73 @@ func c06PrefixBoundary(r *core.Run, rule string) {
 		r.Unres(rule, "Mux.GetHandler", "missing")
 		return
 	}
-	name := gh.Params[1]
+	ghName := gh.Params[1]
 	n := 0
-	for _, b := range gh.Blocks {
-		for _, in := range b.Instrs {
-			sl, ok := in.(*ssa.Slice)
-			if !ok || sl.X != ssa.Value(name) || sl.Low == nil {
-				continue
+	// the entry itself and its private helpers (trimPath(rname)): in a helper the name is the
+	// parameter that every call site binds to the entry's name parameter
+	type scope struct {
+		fn   *ssa.Function
+		name ssa.Value
+	}
+	scopes := []scope{{gh, ghName}}
+	for _, h := range p.Helpers(gh) {
+		if h == gh {
+			continue
+		}
+		for _, prm := range h.Params {
+			if isStringType(prm.Type()) && originOf(p, prm) == ssa.Value(ghName) {
+				scopes = append(scopes, scope{h, prm})
 			}
-			if k, isC := core.ConstInt(sl.Low); isC && k == 0 {
-				continue // a prefix, not a remainder
-			}
-			n++
-			sepChecked := false
-			var facts []condFact
-			for _, ed := range dominatingEdges(sl) {
-				facts = append(facts, edgeFacts(ed)...)
-			}
-			for _, ft := range facts {
-				cnd, succ := ft.V, 1
-				if ft.True {
-					succ = 0
-				}
-				bo, ok := cnd.(*ssa.BinOp)
-				if !ok || (bo.Op != token.EQL && bo.Op != token.NEQ) {
+		}
+	}
+	for _, sc := range scopes {
+		name := sc.name
+		for _, b := range sc.fn.Blocks {
+			for _, in := range b.Instrs {
+				sl, ok := in.(*ssa.Slice)
+				if !ok || sl.X != name || sl.Low == nil {
 					continue
 				}
-				k, isC := core.ConstInt(bo.Y)
-				if !isC || k != '.' {
-					continue
+				if k, isC := core.ConstInt(sl.Low); isC && k == 0 {
+					continue // a prefix, not a remainder
 				}
-				// the compared byte is an element of the name
-				isElem := false
-				switch x := bo.X.(type) {
-				case *ssa.Index:
-					isElem = x.X == ssa.Value(name)
-				case *ssa.Lookup:
-					isElem = x.X == ssa.Value(name)
-				case *ssa.UnOp:
-					if ia, ok := x.X.(*ssa.IndexAddr); ok {
-						isElem = ia.X == ssa.Value(name)
+				n++
+				sepChecked := false
+				var facts []condFact
+				for _, ed := range dominatingEdges(sl) {
+					facts = append(facts, edgeFacts(ed)...)
+				}
+				for _, ft := range facts {
+					cnd, succ := ft.V, 1
+					if ft.True {
+						succ = 0
+					}
+					bo, ok := cnd.(*ssa.BinOp)
+					if !ok || (bo.Op != token.EQL && bo.Op != token.NEQ) {
+						continue
+					}
+					k, isC := core.ConstInt(bo.Y)
+					if !isC || k != '.' {
+						continue
+					}
+					// the compared byte is an element of the name
+					isElem := false
+					switch x := bo.X.(type) {
+					case *ssa.Index:
+						isElem = x.X == ssa.Value(name)
+					case *ssa.Lookup:
+						isElem = x.X == ssa.Value(name)
+					case *ssa.UnOp:
+						if ia, ok := x.X.(*ssa.IndexAddr); ok {
+							isElem = ia.X == ssa.Value(name)
+						}
+					}
+					if isElem && ((bo.Op == token.EQL) == (succ == 0)) {
+						sepChecked = true
 					}
 				}
-				if isElem && ((bo.Op == token.EQL) == (succ == 0)) {
-					sepChecked = true
-				}
+				r.Check(sepChecked, rule, core.FuncName(sc.fn), "remainder-after-path-starts-at-token-boundary", p.InstrPos(sl), "the remainder is taken only where the byte after the path is the separator", "the name's remainder after the mux path is taken without having tested that the path is followed by the token separator: a name that merely starts with the path text (\"testing.x\" for path \"test\") is routed into this mux and its handler sees token fragments as path parameters")
 			}
-			r.Check(sepChecked, rule, core.FuncName(gh), "remainder-after-path-starts-at-token-boundary", p.InstrPos(sl), "the remainder is taken only where the byte after the path is the separator", "the name's remainder after the mux path is taken without having tested that the path is followed by the token separator: a name that merely starts with the path text (\"testing.x\" for path \"test\") is routed into this mux and its handler sees token fragments as path parameters")
 		}
 	}
 	if n == 0 {
@@ -1452,5 +1552,90 @@ func c06MountAware(r *core.Run, rule string, ro *muxRoles) {
 			}
 		}
 		r.Check(good && nRec > 0, rule, fname, "mount-index-rebound-at-mount-points", p.InstrPos(rebound), "the mount index is rebound where the node is a mount point and every recursive call passes the rebound value", fmt.Sprintf("recursive calls (%d) do not all pass the mount index rebound at mount points", nRec))
+	}
+}
+
+// c06AcceptHasHandler (C06.R12, shared as C02.W2): an exact-match accept site of
+// the matcher - one that records a literal or placeholder node as the match -
+// lies behind the edge on which that node's handler was tested non-nil. A node
+// without a handler only exists as part of a longer pattern; accepting it ends
+// the search, the lookup then reports "no handler" although the placeholder or
+// wildcard sibling matches the name. The wildcard site needs no test: a
+// full-wildcard node is only ever created for a registration.
+func c06AcceptHasHandler(r *core.Run, rule string, root []*ssa.Function, ro *muxRoles) {
+	p := r.P
+	n := 0
+	for _, ac := range core.FieldAccesses(root, func(f core.Field) bool { return f == ro.nmNode }) {
+		st, ok := ac.Instr.(*ssa.Store)
+		if !ok || ac.Kind != "store" {
+			continue
+		}
+		if c, isC := st.Val.(*ssa.Const); isC && c.IsNil() {
+			continue
+		}
+		fromWild := false
+		for _, lf := range valueLeaves(st.Val, nil, 0) {
+			if f, ok := core.LoadedField(lf.V); ok && f == ro.nodeWild {
+				fromWild = true
+			}
+		}
+		// a helper that records whatever node it is handed: judged at its call sites
+		type site struct {
+			node ssa.Value
+			at   ssa.Instruction
+		}
+		sites := []site{{st.Val, st}}
+		if prm, isPrm := st.Val.(*ssa.Parameter); isPrm && p.IsPrivateHelper(ac.Fn) {
+			sites = nil
+			pi := -1
+			for i, q := range ac.Fn.Params {
+				if q == prm {
+					pi = i
+				}
+			}
+			for _, cs := range p.CallersOf(ac.Fn) {
+				if pi >= 0 && pi < len(cs.Common().Args) {
+					sites = append(sites, site{cs.Common().Args[pi], cs})
+				}
+			}
+		}
+		for k, s := range sites {
+			isWild := fromWild
+			for _, lf := range valueLeaves(s.node, nil, 0) {
+				if f, ok := core.LoadedField(lf.V); ok && f == ro.nodeWild {
+					isWild = true
+				}
+			}
+			if isWild {
+				continue
+			}
+			n++
+			guarded := false
+			for _, ed := range dominatingEdges(s.at) {
+				ci := core.Cond(ed.If.Cond)
+				if ci.Kind != "nilcmp" || !ci.HasFld || ci.Field != ro.nodeHs {
+					continue
+				}
+				u, isU := core.Strip(ci.X).(*ssa.UnOp)
+				if !isU {
+					continue
+				}
+				fa, isFA := u.X.(*ssa.FieldAddr)
+				if !isFA || fa.X != s.node {
+					continue
+				}
+				nonNil := (ci.Op == token.NEQ) == (ed.Succ == 0)
+				if ci.Negate {
+					nonNil = !nonNil
+				}
+				if nonNil {
+					guarded = true
+				}
+			}
+			r.Check(guarded, rule, core.FuncName(s.at.Parent()), fmt.Sprintf("exact-accept-site-behind-handler!=nil#%d", k), p.InstrPos(s.at), "the literal / placeholder node is recorded as the match only when it has a handler", "a literal or placeholder node is recorded as the match without its handler having been tested non-nil: a node that only exists as part of a longer pattern ends the search, so names that the placeholder or wildcard sibling matches are reported as having no handler (With errs, requests get system.notFound)")
+		}
+	}
+	if n == 0 {
+		r.Bad(rule, "matchNode", "exact-accept-sites-found", "-", "no exact-match accept site found (rule went vacuous)")
 	}
 }
